@@ -57,6 +57,11 @@ def build_call(cur, step):
     via, items = step["via"], step["items"]
     if via == "func":
         return getattr(fmtfuncs, items[0]["name"])(cur)
+    helper = None
+    if via == "funckw":
+        # a fmtfuncs helper called with further names / keywords: red(x, fg='blue'), bold(x, bold=False), red(x, 'bold');
+        # judged as the documented equivalent fmtstr(x, *names, style='red', **keywords)
+        helper, items = getattr(fmtfuncs, items[0]["name"]), items[1:]
     args, kwargs = [], {}
     for it in items:
         k = it["k"]
@@ -86,6 +91,8 @@ def build_call(cur, step):
                 kwargs["style"] = 3
     if via == "copy":
         return cur.copy_with_new_atts(**kwargs)
+    if helper is not None:
+        return helper(cur, *args, **kwargs)
     return fmtstr(cur, *args, **kwargs)
 
 
@@ -174,6 +181,16 @@ class C14(PureCheck):
             for fn in list(COL) + ["on_" + c for c in COL] + list(STY) + ["on_dark"]:
                 yield {"op": "apply", "base": b, "steps": [{"via": "func", "items": [item("func", name=fn)]}]}
             yield {"op": "apply", "base": b, "steps": [{"via": "fmtstr", "items": []}]}
+            if nb <= 12 or tier == "thorough":
+                # a helper called with further names / keywords - also for the very attribute the helper sets
+                for fn, extra in (("red", [item("kwname", key="fg", name="blue")]), ("red", [item("kwnum", key="fg", num=34)]),
+                                  ("gray", [item("kwname", key="fg", name="gray")]), ("on_green", [item("kwname", key="bg", name="yellow")]),
+                                  ("on_blue", [item("kwnum", key="bg", num=41)]), ("bold", [item("bool", key="bold", val=0)]),
+                                  ("underline", [item("bool", key="underline", val=0)]), ("invert", [item("bool", key="invert", val=1)]),
+                                  ("red", [item("pos", name="bold")]), ("red", [item("kwname", key="bg", name="blue")]),
+                                  ("bold", [item("kwname", key="fg", name="red")]), ("red", [item("pos", name="blue")]),
+                                  ("on_red", [item("pos", name="on_blue")]), ("blue", [item("bool", key="bold", val=0), item("pos", name="underline")])):
+                    yield {"op": "apply", "base": b, "steps": [{"via": "funckw", "items": [item("func", name=fn)] + extra}]}
             for inv in INVALID:
                 yield {"op": "apply", "base": b, "steps": [{"via": "fmtstr", "items": inv}]}
             if nb <= 30 or tier == "thorough":
@@ -203,6 +220,9 @@ class C14(PureCheck):
                 for step in inp["steps"]:
                     cur = build_call(cur, step)
                 return cur
+            if any(st["via"] == "funckw" for st in inp["steps"]):
+                ev["steps"] = [st if st["via"] != "funckw" else
+                               {"via": "fmtstr", "items": st["items"][1:] + [dict(st["items"][0], k="style")]} for st in inp["steps"]]
             ev["res"] = fmtlib.enc_res(run)
         elif op == "remove":
             f = enc.build_fmtstr(inp["f"])
